@@ -17,6 +17,7 @@ import (
 
 	filehandler "github.com/goblimey/go-ntrip/file_handler"
 	"github.com/goblimey/go-ntrip/jsonconfig"
+	"github.com/goblimey/go-ntrip/apps/appcore"
 	"github.com/goblimey/go-ntrip/rtcm/handler"
 	"github.com/goblimey/go-ntrip/rtcm/utils"
 
@@ -37,6 +38,10 @@ type timeMsg struct {
 	TrueMs  int64 `json:"true_unix_ms"`
 	Illegal bool  `json:"illegal,omitempty"`
 	TS      uint  `json:"timestamp"`
+	// Short > 0: a CRC-valid frame of this MSM type whose payload has only this many
+	// bytes (2..6: too few for the 30-bit timestamp, which ends in the seventh).  It
+	// carries no time; it must come out as one message and leave the times alone.
+	Short int `json:"short_payload_bytes,omitempty"`
 }
 
 type timeCase struct {
@@ -57,6 +62,13 @@ type timeCase struct {
 	// the device sends): the start time is the one that was given, not a later one
 	FirstByteDelayMs int       `json:"first_byte_after_ms,omitempty"`
 	Msgs             []timeMsg `json:"msgs"`
+	// ViaAppCore: the recording goes through the applications' common core (reader ->
+	// file handler -> fan-out), AFTER an earlier recording with its own start time
+	// (another week, another year) has gone through the same AppCore object: a program
+	// that reconnects, a viewer that is given one file after another
+	ViaAppCore     bool      `json:"via_appcore,omitempty"`
+	EarlierStartMs int64     `json:"earlier_recording_start_unix_ms,omitempty"`
+	EarlierMsgs    []timeMsg `json:"earlier_recording_msgs,omitempty"`
 }
 
 func zoneOf(name string) *time.Location {
@@ -120,6 +132,9 @@ func execTime(c *child.Ctx, k timeCase, cj []byte, sigPrefix string) {
 	frames := make([][]byte, len(k.Msgs))
 	for i, m := range k.Msgs {
 		frames[i] = timeFrame(r, m.Type, m.TS)
+		if m.Short > 0 {
+			frames[i] = ref.Frame(frames[i][3 : 3+m.Short])
+		}
 	}
 	type got struct {
 		msg *handler.Message
@@ -158,6 +173,46 @@ func execTime(c *child.Ctx, k timeCase, cj []byte, sigPrefix string) {
 					mm := m
 					gots = append(gots, got{msg: &mm})
 				}
+			}
+		} else if k.ViaAppCore {
+			var earlier, all []byte
+			for _, m := range k.EarlierMsgs {
+				f := timeFrame(r, m.Type, m.TS)
+				if m.Short > 0 {
+					f = ref.Frame(f[3 : 3+m.Short])
+				}
+				earlier = append(earlier, f...)
+			}
+			for _, f := range frames {
+				all = append(all, f...)
+			}
+			ch := make(chan handler.Message, 8)
+			core := appcore.New(&jsonconfig.Config{}, []chan handler.Message{ch})
+			var msgs []handler.Message
+			collected := make(chan struct{})
+			go func() {
+				for m := range ch {
+					msgs = append(msgs, m)
+					tick()
+				}
+				close(collected)
+			}()
+			ret := make(chan struct{})
+			nEarlier := 0
+			go func() {
+				core.HandleMessagesUntilEOF(time.UnixMilli(k.EarlierStartMs).UTC(), bufio.NewReader(bytes.NewReader(earlier)))
+				nEarlier = len(k.EarlierMsgs)
+				core.HandleMessagesUntilEOF(start, bufio.NewReader(bytes.NewReader(all)))
+				close(ret)
+			}()
+			waitOrHang(ret, caseWatchdog, "AppCore did not return from two recordings")
+			close(ch)
+			waitOrHang(collected, caseWatchdog, "monitor consumer did not finish")
+			if len(msgs) >= nEarlier {
+				msgs = msgs[nEarlier:]
+			}
+			for i := range msgs {
+				gots = append(gots, got{msg: &msgs[i]})
 			}
 		} else if k.ViaFile {
 			var all []byte
@@ -216,6 +271,14 @@ func execTime(c *child.Ctx, k timeCase, cj []byte, sigPrefix string) {
 	for i, m := range k.Msgs {
 		g := gots[i]
 		cons := ref.ConstellationOf(m.Type)
+		if m.Short > 0 {
+			if g.msg == nil {
+				c.Violate(sigPrefix+"not-typed", fmt.Sprintf("message %d (a type %d frame with a payload of %d bytes) produced no message", i, m.Type, m.Short), cj)
+				return
+			}
+			c.Count("frames_too_short_for_a_timestamp_in_histories", 1)
+			continue
+		}
 		if g.msg == nil || g.msg.MessageType != m.Type {
 			c.Violate(sigPrefix+"not-typed", fmt.Sprintf("message %d (type %d) was not delivered as that type", i, m.Type), cj)
 			return
@@ -225,7 +288,7 @@ func execTime(c *child.Ctx, k timeCase, cj []byte, sigPrefix string) {
 			return
 		}
 		if m.Illegal {
-			if !k.ViaStream && !k.ViaFile && !(k.Split > 0 && (i < k.Split || !k.RestFrames)) && g.err == nil {
+			if !k.ViaStream && !k.ViaFile && !k.ViaAppCore && !(k.Split > 0 && (i < k.Split || !k.RestFrames)) && g.err == nil {
 				c.Violate(sigPrefix+"illegal-timestamp-not-an-error", fmt.Sprintf("message %d: %s timestamp %d is outside its legal range but no error was returned (SentAt %q)", i, cons, m.TS, g.msg.SentAt), cj)
 				return
 			}
@@ -237,7 +300,7 @@ func execTime(c *child.Ctx, k timeCase, cj []byte, sigPrefix string) {
 			continue
 		}
 		u := time.UnixMilli(m.TrueMs).UTC()
-		if !k.ViaStream && !k.ViaFile && g.err != nil {
+		if !k.ViaStream && !k.ViaFile && !k.ViaAppCore && g.err != nil {
 			c.Violate(sigPrefix+"valid-timestamp-rejected", fmt.Sprintf("message %d: %s timestamp %d (true time %s) was reported as an error: %v", i, cons, m.TS, u.Format(time.RFC3339Nano), g.err), cj)
 			return
 		}
@@ -266,6 +329,9 @@ func execTime(c *child.Ctx, k timeCase, cj []byte, sigPrefix string) {
 	}
 	if k.ViaFile {
 		c.Count("histories_through_the_file_handler", 1)
+	}
+	if k.ViaAppCore {
+		c.Count("histories_through_an_appcore_that_served_another_week_before", 1)
 	}
 }
 
@@ -519,6 +585,11 @@ func genHistoryAt(r *ref.SplitMix64, anyStartInWeek bool, forced *time.Time) (ti
 			k.Msgs = append(k.Msgs, timeMsg{Type: tp, Illegal: true, TS: m.Timestamp})
 			pendingIllegal = true
 		}
+		if r.Chance(1, 14) {
+			// a frame of an MSM type cut short in front of the end of its timestamp
+			tp := ref.TypesOf(streams[j].name)[r.Intn(2)]
+			k.Msgs = append(k.Msgs, timeMsg{Type: tp, Short: r.Range(2, 6), TS: uint(r.Intn(604800000))})
+		}
 		k.Msgs = append(k.Msgs, streams[j].msgs[idx[j]])
 		if pendingIllegal {
 			illegalThenValid = true
@@ -687,6 +758,15 @@ func genDispCase(r *ref.SplitMix64, id int) dispCase {
 	}
 	h, _ := genHistoryAt(r, true, &T)
 	h.Split, h.RestFrames, h.ViaStream, h.Debug = 0, false, true, true
+	// the display is read back line by line against the list of observations: frames
+	// that are too short to carry a time are left to the in-process histories
+	kept := h.Msgs[:0]
+	for _, m := range h.Msgs {
+		if m.Short == 0 {
+			kept = append(kept, m)
+		}
+	}
+	h.Msgs = kept
 	tz := []string{"", "UTC", "fixed2", "fixed9", "fixed13", "fixed-5", "fixed-11", "fixed1", "Asia/Tokyo", "Europe/Moscow", "America/New_York", "Pacific/Auckland"}[r.Intn(12)]
 	return dispCase{Arg: arg, TZ: tz, Hist: h, ID: id}
 }
@@ -727,6 +807,13 @@ func monTime(c *child.Ctx, replay json.RawMessage, anyStart bool) {
 	}
 	for i := 0; i < n; i++ {
 		k, nontriv := genHistory(r, anyStart)
+		if i%9 == 4 {
+			// through the applications' core, which has played another recording (another
+			// week, its own start time) just before
+			e, _ := genHistory(r, anyStart)
+			k.ViaAppCore, k.EarlierStartMs, k.EarlierMsgs = true, e.StartMs, e.Msgs
+			k.Split, k.RestFrames, k.ViaFile, k.ViaStream, k.FirstByteDelayMs = 0, false, false, false, 0
+		}
 		cj := c.BeginV(k)
 		execTime(c, k, cj, sig)
 		c.Count("messages_in_histories", int64(len(k.Msgs)))
